@@ -11,6 +11,8 @@ CONSTANTS
   DirectCalls = FALSE
   MaxMsgLen = 3
   AsyncApply = FALSE
+  MaxPerRequest = 99
+  RecursiveRLock = FALSE
   Eager = TRUE
 
 
